@@ -14,8 +14,8 @@ def dispatch (prop k : String) (i impl : Json) : E Json :=
   | "chain" => handleChain i
   | "validate" => handleValidate prop i impl
   | "trust" => handleTrust i
-  | "jwsread" => handleJwsRead i
-  | "coseread" => handleCoseRead i
+  | "jwsread" => handleJwsRead prop i impl
+  | "coseread" => handleCoseRead prop i impl
   | "noop" => do
     -- the container itself does not decode (or must decode): nothing to model
     let e ← fldStr i "expect"
